@@ -67,3 +67,27 @@ Definition arun (rp nc : bool) (ops : list aop) : astate := fold_left (astep rp 
 
 (* everything the caller holds still reads as the caller last saw or wrote it *)
 Definition views_intact (s : astate) : Prop := Forall (fun p => acont (am s) (fst p) = snd p) (views s).
+
+(* ---- values with marshalers: what MarshalJSON / MarshalText returns is a window into memory the caller
+   holds (a json.RawMessage cut out of an earlier result or of an input, a marshaler's own scratch space).
+   The encoder copies it into the pooled MarshalBuf before it appends the sentinel its scanners need; with
+   the flag set it appends the sentinel to the returned slice itself, i.e. writes behind the window. *)
+Inductive aop2 :=
+| ABase (o : aop)
+| AMarshalVia (k : nat).     (* Marshal of a value whose marshaler returns the k-th thing the caller holds *)
+
+Definition astep2 (writes_marshaler_result : bool) (s : astate) (o : aop2) : astate :=
+  match o with
+  | ABase o => astep false false s o
+  | AMarshalVia k =>
+      match nth_error (views s) k with
+      | None => s
+      | Some (r, _) =>
+          let out := acont (am s) r in
+          let s1 := if writes_marshaler_result
+                    then {| am := awrite (am s) r (out ++ [0%N]); views := views s; inputs := inputs s |}
+                    else s in
+          astep false false s1 (AMarshal out)
+      end
+  end.
+Definition arun2 (w : bool) (ops : list aop2) : astate := fold_left (astep2 w) ops astate0.
